@@ -100,11 +100,15 @@ Definition hw_drop (h : heap) (s : hwtiny) : hres heap :=
   hdo h1 <- h_drop h (hw_lru s); hs_drop h1 (hw_slru s).
 
 (** [Clone for WTinyLFUCache]: the estimator (a value), the window, the main cache; then the original is dropped *)
-Definition hw_clone_replace (h : heap) (s : hwtiny) : hres (heap * hwtiny) :=
+Definition hw_clone (h : heap) (s : hwtiny) : hres (heap * hwtiny) :=
   hdo (h1, qw) <- h_clone h (hw_lru s);
   hdo (h2, m) <- hs_clone h1 (hw_slru s);
+  HOk (h2, hw_with s (hw_tiny s) qw m).
+
+Definition hw_clone_replace (h : heap) (s : hwtiny) : hres (heap * hwtiny) :=
+  hdo (h2, s') <- hw_clone h s;
   hdo h3 <- hw_drop h2 s;
-  HOk (h3, hw_with s (hw_tiny s) qw m).
+  HOk (h3, s').
 
 Inductive wop :=
 | WPut (k : key) (v : val) | WGetMut (k : key) (w : option val) | WPeek (k : key)
